@@ -18,7 +18,21 @@ fn nasty_strings() -> Vec<String> {
         .iter().map(|s| s.to_string()).collect()
 }
 
+fn nest(d: usize, array: bool) -> serde_json::Value {
+    let mut v = json!(1);
+    for _ in 0..d { v = if array { json!([v]) } else { json!({"a": v}) }; }
+    if array { json!({"k": v}) } else { v }
+}
+
 fn custom_values() -> Vec<serde_json::Value> {
+    let mut v = custom_values_flat();
+    // nesting depth, iterated up to what `--custom` (serde_json, 128 levels) can deliver
+    for d in [8usize, 31, 32, 62, 63, 64, 100, 126, 127] { v.push(nest(d, false)); }
+    for d in [8usize, 31, 61, 62, 63, 100, 126] { v.push(nest(d, true)); }
+    v
+}
+
+fn custom_values_flat() -> Vec<serde_json::Value> {
     vec![json!({}), json!({"k": "v"}), json!({"k": 7}), json!({"k": -7}), json!({"k": 1.5}), json!({"k": 1e300}), json!({"k": 18446744073709551615u64}), json!({"k": true}), json!({"k": null}),
         json!({"k": [1, "two", [3]]}), json!({"k": {"a": {"b": {"c": 1}}}}), json!({"key \"quoted\" and space": 1}), json!({"k": "line\nbreak"}), json!({"": ""}), json!({"k": -0.0}), json!({"k": 9223372036854775807i64}),
         json!({"k": -9223372036854775808i64}), json!({"k": 1e-7}), json!({"a": 1, "b": 2, "0": 3}), json!("just a string"), json!(42), json!(null), json!([1, 2]), json!({"k": 0.1}), json!({"k": 123456789012345680000.0})]
@@ -189,7 +203,7 @@ fn main() {
     let mut pipe_jobs: Vec<(&str, Vec<String>, Option<String>)> = vec![];
     let stdin_doc = bind::zerv(&schemas[22].1, &base_vars()).unwrap().to_string();
     let flagsets: Vec<Vec<String>> = vec![vec![], a(&["--epoch", "0"]), a(&["--bump-epoch=0"]), a(&["--bump-major"]), a(&["--pre-release-label", "beta", "--post", "0"]), a(&["--dirty"]), a(&["--distance", "3", "--bumped-branch", "Feat/é \"q\" \\ x"]),
-        a(&["--custom", "{\"k\": {\"a\": [1, 2.5, null, \"s\\n\"]}}"]), a(&["--extra-core=0=0"]), a(&["--clean"]), a(&["--no-bump-context"]), a(&["--bump-dev", "--bump-post=0"]), a(&["--bumped-commit-hash", "€€€\n"]), a(&["--bumped-timestamp", "0"])];
+        a(&["--custom", "{\"k\": {\"a\": [1, 2.5, null, \"s\\n\"]}}"]), a(&["--custom", &nest(63, false).to_string()]), a(&["--custom", &nest(127, false).to_string()]), a(&["--custom", &nest(100, true).to_string()]), a(&["--extra-core=0=0"]), a(&["--clean"]), a(&["--no-bump-context"]), a(&["--bump-dev", "--bump-post=0"]), a(&["--bumped-commit-hash", "€€€\n"]), a(&["--bumped-timestamp", "0"])];
     let presets: Vec<&str> = if quick { vec!["standard", "standard-base-prerelease-post-dev-context", "calver", "calver-context"] } else { zv::STANDARD_PRESETS.iter().chain(zv::CALVER_PRESETS.iter()).copied().collect() };
     for tag in ["1.2.3", "0!1.2.3a0.post0.dev0+L", "1.2.3-epoch.0.rc.1"] { for fs in &flagsets { for p in &presets {
         let mut args = a(&["--source", "none", "--tag-version", tag, "--schema", p]);
@@ -202,6 +216,11 @@ fn main() {
         args.extend(extra.iter().cloned());
         pipe_jobs.push(("flow", args, None));
     }}}}
+    // documents nested deeper than `--custom` can produce: whatever the reader accepts the writer must be able to emit again
+    for d in [100usize, 128, 140, 147, 148, 149, 150, 200, 298, 299, 300, 1000] { for array in [false, true] {
+        let doc = format!("(schema:(core:[var(Major)],extra_core:[],build:[]),vars:(major:Some(1),custom:{}))", nest(d, array));
+        pipe_jobs.push(("version", a(&["--source", "stdin"]), Some(doc)));
+    }}
     let s2 = pipe_jobs.par_iter().map(|(cmd, args, stdin)| { let mut st = Stats::default(); judge_pipe(&ctx, cmd, args, stdin.as_deref(), &mut st); st }).reduce(Stats::default, Stats::merge);
 
     // (c) schema rule violations generated structurally
